@@ -65,7 +65,7 @@ const (
 	// quick tier: seeds above this size get substitution at item-head bytes only and are
 	// skipped by the "heavy" variant decoders; the thorough tier treats every seed in full
 	quickFullSeed = 1100
-	quickMaxSeeds = 4
+	quickMaxSeeds = 3
 )
 
 // allocBoundOf: base + c * len * D, D = nesting depth of the input (1..256) as seen by the
@@ -93,8 +93,8 @@ func decoderFamilies(d *decoder, thorough bool) []family {
 	if thorough && d.sweep3 {
 		fams = append(fams, bytesOfLen(3))
 	}
-	fams = append(fams, standaloneNests())
-	maxPos := 40
+	fams = append(fams, standaloneNests(!thorough))
+	maxPos := 24
 	if thorough {
 		maxPos = 400
 	}
@@ -102,11 +102,14 @@ func decoderFamilies(d *decoder, thorough bool) []family {
 		if !thorough && si >= quickMaxSeeds {
 			break // quick tier: the first few seeds of a decoder; the thorough tier takes all
 		}
+		if !thorough && strings.HasPrefix(s.name, "t-") {
+			continue // seed reserved for the thorough tier (very large artefact)
+		}
 		big := len(s.b) > quickFullSeed
 		if big && (d.smallOnly || (!thorough && d.heavy)) {
 			continue // variant decoders: with-offsets takes the large blocks in the thorough tier only, skip-body-hash never (same decode path as the default configuration)
 		}
-		sf := seedFamilies(s.name, s.b, !d.notCbor, maxPos, 0, !thorough && big)
+		sf := seedFamilies(s.name, s.b, !d.notCbor, maxPos, 0, !thorough && big, !thorough)
 		fams = append(fams, sf...)
 		if d.post != nil {
 			for _, f := range sf {
@@ -1200,7 +1203,7 @@ func (s *supervisor) finish(planned int64) {
 	c.Set("evaluations", n)
 	c.Set("distinct_nontrivial", dist)
 	c.Set("outcomes", map[string]int64{"returned-value": ok, "returned-error": er, "panic": pn, "alloc-excess": av, "fatal": fatal, "hang": hang})
-	c.Set("rule", "for every decoder: all byte strings of length 0..2 (0..3 for the cheap decoders, thorough tier) + 63 standalone nests + for every valid seed: truncation at every offset, every single-byte substitution (255 values if seed<=256 B else the 16 type-confusing values), every definite length field inflated to {len+1,2^16,2^32-1,2^63}, every tag renumbered to 15 values / selected nodes wrapped in 6 tags, selected nodes (all when the seed has <=40 nodes (quick) / <=400 (thorough), else an even stride) replaced by 9 nest shapes x 7 depths, and the same tree mutations inside embedded CBOR with outer lengths corrected. A case = (decoder, input bytes); distinct = distinct input bytes per work unit (64-bit FNV, units never span families; same-length variants equal to an enumerated single-byte substitution are removed at generation); identity mutations are skipped and not counted; non-trivial = every counted case (each is a different byte string reaching the real decoder).")
+	c.Set("rule", "for every decoder: all byte strings of length 0..2 (0..3 for the cheap decoders, thorough tier) + standalone nests (9 shapes x depths) + for every valid seed: truncation at every offset, every single-byte substitution (255 values if seed<=256 B else the 16 type-confusing values), every definite length field inflated to {len+1,2^16,2^32-1,2^63}, every tag renumbered to 15 values / selected nodes wrapped in 6 tags, selected nodes (all when the seed has <=24 nodes (quick) / <=400 (thorough), else an even stride) replaced by 9 nest shapes x 7 depths (4 depths in the quick tier), every integer item (and tag-2/3 bignum) replaced by 13 other integer encodings (bignum zero c240/c24100, same value as bignum, negative bignums, 8-byte uint/nint forms, 0, -1, extremes), and the same tree mutations inside embedded CBOR with outer lengths corrected. A case = (decoder, input bytes); distinct = distinct input bytes per work unit (64-bit FNV, units never span families; same-length variants equal to an enumerated single-byte substitution are removed at generation); identity mutations are skipped and not counted; non-trivial = every counted case (each is a different byte string reaching the real decoder).")
 	c.Set("decoders", len(names))
 	c.Set("planned_inputs", planned)
 	c.Set("skipped_identity", skipped)
